@@ -43,7 +43,7 @@ def pattern_event(pp, tid, c, opts):
           "requested": fix(opts.get("distribution_abundance", 1.0)), "isSum": bool(opts.get("is_abundance_sum", False)),
           "pruned": bool(pruned), "massView": bool(mass_view and r >= 3),
           "lightestFirst": all(k in LIGHT + ["e", "p", "n"] for k in c), "unlabelled": True,
-          "resolutionSlack": int(10 ** (6 - r)) if r >= 3 else 0, "out": o,
+          "resolutionSlack": int(10 ** (6 - r)) * max(1, len(c)) if r >= 3 else 0, "out": o,
           "pattern": pattern(p) if o == "ret" else []}
     return ev
 
@@ -93,7 +93,7 @@ def run(tier, seed, rep):
             ev.update(mass=[], m0=[0, 0], offsets=[])
         evs.append(ev)
     # exact multinomial expansion for compositions of at most 12 atoms (the isotopologues are enumerated by TLC)
-    for i in range(2500 if thorough else 350):
+    for i in range(2500 if thorough else 90):
         total = rnd.randint(1, 12)
         c = {}
         for _ in range(total):
